@@ -9,6 +9,8 @@ mod gen;
 mod c01;
 mod c02;
 mod c03;
+mod c04;
+mod c16;
 mod c05;
 mod c06;
 mod c07;
@@ -33,6 +35,8 @@ fn exec_line(line: &str) -> String {
             "C01" => c01::exec(&op, &a),
             "C02" => c02::exec(&op, &a),
             "C03" => c03::exec(&op, &a),
+            "C04" => c04::exec(&op, &a),
+            "C16" => c16::exec(&op, &a),
             "C05" => c05::exec(&op, &a),
             "C06" => c06::exec(&op, &a),
             "C07" => c07::exec(&op, &a),
@@ -84,6 +88,8 @@ fn main() {
                 "C01" => c01::generate(&mut rng, tier, shard, nshards, &mut emit),
                 "C02" => c02::generate(&mut rng, tier, shard, nshards, &mut emit),
                 "C03" => c03::generate(&mut rng, tier, shard, nshards, &mut emit),
+                "C04" => c04::generate(&mut rng, tier, shard, nshards, &mut emit),
+                "C16" => c16::generate(&mut rng, tier, shard, nshards, &mut emit),
                 "C05" => c05::generate(&mut rng, tier, shard, nshards, &mut emit),
                 "C06" => c06::generate(&mut rng, tier, shard, nshards, &mut emit),
                 "C07" => c07::generate(&mut rng, tier, shard, nshards, &mut emit),
